@@ -261,6 +261,10 @@ func init() {
 						return
 					case "fatalnil":
 						t.Fatal(nil)
+					case "paniccyclic": // a panic value that contains itself
+						m := map[string]any{}
+						m["self"] = m
+						panic(m)
 					case "panicstringer": // a typed nil pointer whose String method dereferences its receiver
 						var e *nilReceiverStringer
 						panic(e)
@@ -302,8 +306,8 @@ func init() {
 			})
 		}
 		var app *f1.F1
-		if p["logfmt"] == "json" { // f1's own JSON logger (banner and counts then come from the returned error and the truth counters)
-			os.Setenv("F1_LOG_FORMAT", "json")
+		if lf := p["logfmt"]; lf == "json" || lf == "text" { // f1's own logger in that format (banner and counts then come from the returned error and the truth counters)
+			os.Setenv("F1_LOG_FORMAT", lf)
 			app = f1.New().Add("s", topFn)
 			os.Unsetenv("F1_LOG_FORMAT")
 		} else {
